@@ -50,6 +50,12 @@ def compare_expressions(ctx, before, after, fresh, assignments, sides=None):
             continue
         if rb.is_eq != ra.is_eq:
             return "kind", {"before_is_equation": rb.is_eq, "after_is_equation": ra.is_eq}
+        if rb.is_eq and sides == "multiset":
+            # an equation flip (possibly of an inner equation of a chain a = b = c): the same sides in another order
+            if sorted(sides_of(rb.value)) == sorted(sides_of(ra.value)):
+                compared += 1
+                continue
+            return "mismatch", {"assignment": G.show_assignment(a), "before": _show(rb.value), "after": _show(ra.value), "allowed_difference": 0.0, "side": "all"}
         pairs = [(None, None)] if not rb.is_eq else (sides or [(1, 1), (2, 2)])
         for sb, sa in pairs:
             vb = rb.value if sb is None else rb.value[sb]
